@@ -45,7 +45,7 @@ struct thr {
 	void (*fn)(int); void *(*pfn)(void *); void *parg; int want_join;
 	int needs_empty;          /* pending action is enabled only on an empty buffer */
 	pthread_mutex_t *want_mutex; int32_t *want_futex; int woken; int wake_reason; pthread_cond_t *want_cond;
-	int sig_pending; long steps; long rets; int masked; int sig_deferred; sigset_t mask;
+	int sig_pending; long steps; long rets; int masked; int sig_deferred; sigset_t mask; int enosys_next;
 } T[MAXT];
 static struct { pthread_mutex_t *m; int owner; } MX[128]; static int nmx;
 static int mx_idx(pthread_mutex_t *m){ for(int i=0;i<nmx;i++) if(MX[i].m==m) return i; MX[nmx].m=m; MX[nmx].owner=-1; return nmx++; }
@@ -226,6 +226,7 @@ long vh_syscall(long nr, ...){
 		char l[64]; vs_ploc(l,ua);
 		if(me<0) return 0;
 		if(vs_futex_enosys){ yield_point(1); printf("%d futex %s -> ENOSYS\n", me, l); errno=ENOSYS; return -1; }
+		if(op==FUTEX_WAIT && T[me].enosys_next){ T[me].enosys_next=0; yield_point(1); printf("%d futex_wait %s val=%d -> ENOSYS (spurious)\n", me, l, val); errno=ENOSYS; return -1; }   /* fault choice '~t': sys_futex FUTEX_WAIT spuriously returns ENOSYS (mips / parisc signal restart bug) while wakes reach the kernel */
 		if(op==FUTEX_WAIT){ yield_point(1);
 			if((int32_t)committed_read(ua,4)!=val){ printf("%d futex_wait %s val=%d -> EAGAIN\n", me,l,val); errno=EAGAIN; return -1; }
 			printf("%d futex_wait %s val=%d -> sleep\n", me,l,val);
@@ -286,6 +287,7 @@ void vs_run(const char *sched){
 		int c; int rt=-1; if(*p) c=*p++; else { rt=rr++%NT; c = T[rt].nbuf ? 'a' : '0'; }      /* after the schedule: round robin over all threads (ids may exceed 9) */
 		if(rt>=0 ? c=='a' : (c>='a'&&c<'a'+NT)){ int t = rt>=0 ? rt : c-'a'; if(T[t].nbuf){ char l[64], v[64]; vs_ploc(l,T[t].buf[0].addr); pval(v,T[t].buf[0].v,T[t].buf[0].sz); commit_one(t); printf("%d flush %s v=%s\n", t, l, v);} continue; }
 		if(c>='A'&&c<'A'+NT){ int t=c-'A'; if((T[t].want_futex||T[t].want_cond)&&!T[t].woken){ T[t].woken=1; T[t].wake_reason=1; printf("%d spurious\n",t);} continue; }
+		if(c=='~'){ if(*p){ int t=*p++-'0'; if(t>=0&&t<NT) T[t].enosys_next=1; } continue; }
 		if(c=='!'){ if(*p){ int t=*p++-'0'; if(t>=0&&t<NT&&T[t].want_futex&&!T[t].woken){ T[t].woken=1; T[t].wake_reason=2; } } continue; }
 		if(c=='^'){ if(*p){ int t=*p++-'0'; if(t>=0&&t<NT&&T[t].alive&&sig_handler&&!T[t].want_futex&&T[t].want_join<0){ if(T[t].masked || holds_sigdefer(t)){ T[t].sig_deferred=1; } else { T[t].sig_pending=1; sem_post(&T[t].go); sem_wait(&ctl);} } } continue; }
 		if(c=='}'){ /* solo run with report (C17): thread t alone until its current operation returns; at most 400 own steps */
